@@ -671,12 +671,19 @@ def coq_col(col):
 
 # ------------------------------------------------------------------------------------------------
 
-def report_build_failure(rep, which, fns, log, limit=3):
+def pruned_text(fns, which):
+    """the corpus file without its inner attributes / inner doc comments (it is `include!`d into a module by h_attr_pruned.rs)"""
+    text = C.render_corpus(fns, {"a": CORPUS_SEED, "b": CORPUS_SEED + 1, "o": CORPUS_SEED + 2}[which])
+    return "\n".join(("" if (l.startswith("//!") or l.startswith("#![")) else l) for l in text.split("\n"))
+
+
+def report_build_failure(rep, which, fns, log, limit=3, text=None, fname=None, record=True):
     """The corpus no longer compiles.  A twin whose plain version compiles and whose `#[instrument]` version does not is
     a concrete failing *program* (the quantifier of C17 is over programs): report it with rustc's message."""
     import re
-    fname = "corpus_%s.rs" % which
-    text = C.render_corpus(fns, {"a": CORPUS_SEED, "b": CORPUS_SEED + 1, "o": CORPUS_SEED + 2}[which])
+    fname = fname or "corpus_%s.rs" % which
+    if text is None:
+        text = C.render_corpus(fns, {"a": CORPUS_SEED, "b": CORPUS_SEED + 1, "o": CORPUS_SEED + 2}[which])
     lines = text.split("\n")
     owner = {}
     cur, pending = None, []
@@ -684,7 +691,7 @@ def report_build_failure(rep, which, fns, log, limit=3):
         if l.strip().startswith("#[tracing::instrument"):
             pending.append(n)
             continue
-        m = re.search(r"pub (?:async )?fn ([ip]m?\d+)", l)
+        m = re.search(r"^\s*(?:pub )?(?:async )?fn ([ip]m?\d+)\b", l)
         if m:
             cur = m.group(1)
             for k in pending:
@@ -728,6 +735,8 @@ def report_build_failure(rep, which, fns, log, limit=3):
                 {"fn": name, "attribute": C.attr_text(f, order_rng), "rustc": msg[:800]}, finding="F172")
             continue
         only_known = False
+        if not record:
+            continue
         i0 = next((k for k, l in enumerate(lines) if re.search(r"fn %s\b" % name, l)), None)
         src_i = "\n".join(lines[max(0, i0 - 1):i0 + C.render_fn(f, "p", order_rng).count("\n")]) if i0 is not None else ""
         first = msg.split("\n")[0]
@@ -737,9 +746,36 @@ def report_build_failure(rep, which, fns, log, limit=3):
         n += 1
         if n >= limit:
             break
-    rep.extra.setdefault("build_failure", {})[which] = {"instrumented_twins_rejected": sorted(k for k in bad if k.startswith("i")),
-                                                         "plain_twins_rejected": sorted(plain_broken), "other_errors": other[:3]}
+    prev = rep.extra.setdefault("build_failure", {}).get(which, {"instrumented_twins_rejected": [], "plain_twins_rejected": [], "other_errors": []})
+    rep.extra["build_failure"][which] = {"instrumented_twins_rejected": sorted(set(prev["instrumented_twins_rejected"]) | {k for k in bad if k.startswith("i")}),
+                                         "plain_twins_rejected": sorted(set(prev["plain_twins_rejected"]) | plain_broken),
+                                         "other_errors": (prev["other_errors"] + other)[:3]}
+    rep.extra["build_failure"][which]["last_round"] = sorted(bad)
     return only_known
+
+
+def build_pruned(ctx, rep, which, fns):
+    """The corpus does not compile (already reported, with the rejected twins as failing programs).  So that the twins that DO
+    compile are still run -- a mutant that makes some templates ill-typed usually misbehaves at run time in the others -- drop the
+    rejected functions and build the rest as `h_attr_pruned` (the file is handed to rustc through the environment).  Up to 4 rounds."""
+    import re
+    for rnd in range(4):
+        last = rep.extra.get("build_failure", {}).get(which, {}).get("last_round", [])
+        dead = {int(re.sub(r"\D", "", n)) for n in last}
+        if not dead or rep.extra["build_failure"][which]["other_errors"]:
+            return None
+        fns = [f for f in fns if f["idx"] not in dead]
+        if len(fns) < 20:
+            return None
+        path = os.path.join(ctx.work, "corpus_pruned.rs")
+        text = pruned_text(fns, which)
+        gen_if_changed(path, text)
+        ok, paths, log = cargo_build(ctx, "attr", ["h_attr_pruned"], extra_rustflags="--cfg c17_pruned", extra_env={"C17_PRUNED": path})
+        if ok:
+            rep.extra["build_failure"][which]["pruned_functions_run"] = len(fns)
+            return fns, paths
+        report_build_failure(rep, which, fns, log, text=text, fname="corpus_pruned.rs", record=False)
+    return None
 
 
 def source_tables_tie(ctx, rep, attr_templates):
@@ -800,10 +836,20 @@ def run_corpus(ctx, rep, which, binname, per_fn, n_multi, label, only_cases=None
     ok, paths, log = cargo_build(ctx, "attr", [binname])
     if not ok:
         only_known = report_build_failure(rep, which, fns, log)
-        if not (which == "o" and only_known):
-            rep.tie("build:%s" % binname, False, vlib.last_error(log))
-        return
-    cases = only_cases if only_cases is not None else regress_cases(which) + gen_cases(ctx.rng, fns, per_fn, n_multi)
+        if which == "o" and only_known:
+            return
+        rep.tie("build:%s" % binname, False, vlib.last_error(log))
+        pr = build_pruned(ctx, rep, which, fns) if only_cases is None else None
+        if pr is None:
+            return
+        fns, paths = pr
+        by_idx = {f["idx"]: f for f in fns}
+        binname = "h_attr_pruned"
+        modpath = "%s::corpus" % binname
+        label = label + " (twins that still compile)"
+    alive = set(by_idx)
+    cases = only_cases if only_cases is not None else \
+        [c for c in regress_cases(which) if all(call["f"] in alive for call in c["calls"])] + gen_cases(ctx.rng, fns, per_fn, n_multi)
     rep.count("cases:corpus/C17", sum(1 for c in cases if c.get("regress")))
     # the `none` collector needs a process in which no collector was ever installed
     batches = [[c for c in cases if c["col"] is not None], [c for c in cases if c["col"] is None]]
